@@ -65,6 +65,12 @@ pub enum SOp {
     EntriesJoin(Vec<u8>, u32),
     GetOrDefault(u16, u32, bool),
     Drain(Option<u8>),
+    /// drain joined with a filter bit set (only part of the members is visited), via join() or lend_join()
+    DrainFiltered { take: Option<u8>, lend: bool, filter: Vec<bool> },
+    /// get_other / get_other_mut through the n-th item of a restricted join
+    RestrictProbe(u16, u16, u32),
+    /// entity created through the shared entities resource (not merged until a later maintain)
+    CreateAtomic,
     Clear,
     JoinRead,
     JoinMut(Vec<bool>, u32),
@@ -267,6 +273,27 @@ impl Caps for zoo::CFlagHash {
     caps_join_mut!();
     caps_tracked!();
 }
+impl Caps for zoo::CFlagBTree {
+    caps_join_mut!();
+    caps_tracked!();
+}
+impl Caps for zoo::CFlagDefault {
+    caps_join_mut!();
+    caps_tracked!();
+}
+impl Caps for zoo::CFlagNull {
+    caps_join_mut!();
+    caps_tracked!();
+}
+impl Caps for zoo::CDerefHash {
+    caps_tracked!();
+}
+impl Caps for zoo::CDerefDefault {
+    caps_tracked!();
+}
+impl Caps for zoo::CDerefNull {
+    caps_tracked!();
+}
 impl Caps for zoo::CDerefDense {
     caps_tracked!();
 }
@@ -275,6 +302,56 @@ impl Caps for zoo::CDerefVec {
 }
 impl Caps for zoo::CDerefBTree {
     caps_tracked!();
+}
+
+// ---------------------------------------------------------------------------
+// the four GenericReadStorage impls and the two GenericWriteStorage impls
+
+pub fn gw_get_or_default<S>(mut s: S, e: Entity, payload: Option<u32>) -> Option<Ident>
+where
+    S: GenericWriteStorage,
+    S::Component: ZooComp,
+{
+    s.get_mut_or_default(e).map(|mut a| {
+        let id = a.ident();
+        if let Some(p) = payload {
+            a.access_mut().set_payload(p);
+        }
+        id
+    })
+}
+
+pub fn gw_get_mut<S>(mut s: S, e: Entity, payload: Option<u32>) -> Option<Ident>
+where
+    S: GenericWriteStorage,
+    S::Component: ZooComp,
+{
+    s.get_mut(e).map(|mut a| {
+        let id = a.ident();
+        if let Some(p) = payload {
+            a.access_mut().set_payload(p);
+        }
+        id
+    })
+}
+
+pub fn gw_insert<S>(mut s: S, e: Entity, c: S::Component) -> Result<Option<S::Component>, ()>
+where
+    S: GenericWriteStorage,
+{
+    s.insert(e, c).map_err(|_| ())
+}
+
+pub fn gw_remove<S: GenericWriteStorage>(mut s: S, e: Entity) {
+    s.remove(e)
+}
+
+pub fn gr_get<S>(s: S, e: Entity) -> Option<Ident>
+where
+    S: specs::storage::GenericReadStorage,
+    S::Component: ZooComp,
+{
+    s.get(e).map(|c| c.ident())
 }
 
 // ---------------------------------------------------------------------------
@@ -337,6 +414,7 @@ pub struct SeqFacts {
     pub zst_destroyed_in_last_op: u64,
     pub bomb_fired: bool,
     pub leaked_after_panic: usize,
+    pub diverged_from_model: u32,
 }
 
 #[derive(Clone, Copy, PartialEq, Eq, Debug)]
@@ -353,6 +431,12 @@ pub struct Mode {
     /// index in ops of the operation executed under catch_unwind with the bomb armed
     pub fault_at: Option<usize>,
     pub bomb: Bomb,
+    /// C08: the ledger is independent of the map model, so a divergence from the model (another
+    /// property's business) re-synchronises the model and the sequence goes on to the teardown
+    pub ledger_only: bool,
+    /// same idea for C12: its end-of-sequence replay of all events against the final membership is
+    /// independent of the map model
+    pub events_only: bool,
 }
 
 struct Seq<C: Caps> {
@@ -391,7 +475,7 @@ fn build_world<C: Caps>(pool: &Pool) -> (World, Vec<Entity>, Vec<u32>) {
     let cands: Vec<Entity> = match pool {
         Pool::Dense(n) => world.create_iter().take((*n as usize).clamp(1, 60)).collect(),
         Pool::Sparse { total, picks } => {
-            let total = (*total as usize).clamp(2, 3000);
+            let total = (*total as usize).clamp(2, 6000);
             let all: Vec<Entity> = world.create_iter().take(total).collect();
             let mut set = BTreeSet::new();
             for p in picks.iter().take(24) {
@@ -536,7 +620,15 @@ impl<C: Caps> Seq<C> {
                 let e = self.cands[k];
                 let c = C::make(*p);
                 let new = c.ident();
-                let r = self.w().write_storage::<C>().insert(e, c);
+                // the inherent method, the GenericWriteStorage impl for WriteStorage and the one for &mut WriteStorage
+                let r: Result<Option<C>, ()> = match *p % 3 {
+                    0 => self.w().write_storage::<C>().insert(e, c).map_err(|_| ()),
+                    1 => gw_insert(self.w().write_storage::<C>(), e, c),
+                    _ => {
+                        let mut st = self.w().write_storage::<C>();
+                        gw_insert(&mut st, e, c)
+                    }
+                };
                 if self.alive[k] {
                     let m = self.model.get(&e.id()).cloned();
                     match r {
@@ -563,8 +655,12 @@ impl<C: Caps> Seq<C> {
                 let e = self.cands[k];
                 let generic = matches!(op, SOp::GenericRemove(_));
                 let got = if generic {
-                    let mut st = self.w().write_storage::<C>();
-                    GenericWriteStorage::remove(&mut st, e);
+                    if *sel % 2 == 0 {
+                        gw_remove(self.w().write_storage::<C>(), e);
+                    } else {
+                        let mut st = self.w().write_storage::<C>();
+                        gw_remove(&mut st, e);
+                    }
                     None
                 } else {
                     let r = self.w().write_storage::<C>().remove(e);
@@ -593,21 +689,38 @@ impl<C: Caps> Seq<C> {
                 let g = st.get(e).map(|c| c.ident());
                 let c = st.contains(e);
                 let m = if self.alive[k] { self.model.get(&e.id()).cloned() } else { None };
+                let g2 = gr_get(&st, e);
+                drop(st);
+                let g3 = gr_get(self.w().read_storage::<C>(), e);
+                let g4 = gr_get(self.w().write_storage::<C>(), e);
+                let g5 = {
+                    let ws = self.w().write_storage::<C>();
+                    gr_get(&ws, e)
+                };
+                ensure!(if self.alive[k] { tag } else { "C03" }, "generic-get", g2 == m && g3 == m && g4 == m && g5 == m,
+                    "{:?}: GenericReadStorage::get({:?}) through &ReadStorage / ReadStorage / WriteStorage / &WriteStorage = {:?} / {:?} / {:?} / {:?}, the map holds {:?}", kind, e, g2, g3, g4, g5, m);
                 ensure!(tag, "get", g == m && c == m.is_some(), "{:?}: get({:?})={:?} contains={}, the map holds {:?}", kind, e, g, c, m);
             }
             SOp::GetMut(sel, p, deref) => {
                 let k = self.pick(*sel);
                 let e = self.cands[k];
-                let got = {
-                    let mut st = self.w().write_storage::<C>();
-                    let r = st.get_mut(e).map(|mut a| {
-                        let id = a.ident();
-                        if *deref {
-                            a.access_mut().set_payload(*p);
-                        }
-                        id
-                    });
-                    r
+                let got = match *p % 3 {
+                    0 => {
+                        let mut st = self.w().write_storage::<C>();
+                        let r = st.get_mut(e).map(|mut a| {
+                            let id = a.ident();
+                            if *deref {
+                                a.access_mut().set_payload(*p);
+                            }
+                            id
+                        });
+                        r
+                    }
+                    1 => gw_get_mut(self.w().write_storage::<C>(), e, if *deref { Some(*p) } else { None }),
+                    _ => {
+                        let mut st = self.w().write_storage::<C>();
+                        gw_get_mut(&mut st, e, if *deref { Some(*p) } else { None })
+                    }
                 };
                 let m = if self.alive[k] { self.model.get(&e.id()).cloned() } else { None };
                 ensure!(tag, "get_mut", got == m, "{:?}: get_mut({:?}) saw {:?}, the map holds {:?}", kind, e, got, m);
@@ -858,16 +971,11 @@ impl<C: Caps> Seq<C> {
             SOp::GetOrDefault(sel, p, deref) => {
                 let k = self.pick(*sel);
                 let e = self.cands[k];
-                let got = {
+                let got = if *p % 2 == 0 {
+                    gw_get_or_default(self.w().write_storage::<C>(), e, if *deref { Some(*p) } else { None })
+                } else {
                     let mut st = self.w().write_storage::<C>();
-                    let r = GenericWriteStorage::get_mut_or_default(&mut st, e).map(|mut a| {
-                        let id = a.ident();
-                        if *deref {
-                            a.access_mut().set_payload(*p);
-                        }
-                        id
-                    });
-                    r
+                    gw_get_or_default(&mut st, e, if *deref { Some(*p) } else { None })
                 };
                 if self.alive[k] {
                     let m = self.model.get(&e.id()).cloned();
@@ -918,6 +1026,112 @@ impl<C: Caps> Seq<C> {
                     if kind.tracked() {
                         self.facts.drain_tracked = true;
                     }
+                }
+            }
+            SOp::DrainFiltered { take, lend, filter } => {
+                if filter.is_empty() {
+                    return Ok(ex);
+                }
+                let mut bs = BitSet::new();
+                for (k, e) in self.cands.iter().enumerate() {
+                    if filter[k % filter.len()] {
+                        bs.add(e.id());
+                    }
+                }
+                let limit = take.map(|t| t as usize).unwrap_or(usize::MAX);
+                let mut got: Vec<(u32, Ident)> = vec![];
+                {
+                    let w = self.w();
+                    let ents = w.entities();
+                    let mut st = w.write_storage::<C>();
+                    if *lend {
+                        let mut j = (&ents, st.drain(), &bs).lend_join();
+                        while got.len() < limit {
+                            match j.next() {
+                                Some((e, c, _)) => {
+                                    got.push((e.id(), c.ident()));
+                                    caller_drop(c);
+                                }
+                                None => break,
+                            }
+                        }
+                    } else {
+                        let mut it = (&ents, st.drain(), &bs).join();
+                        while got.len() < limit {
+                            match it.next() {
+                                Some((e, c, _)) => {
+                                    got.push((e.id(), c.ident()));
+                                    caller_drop(c);
+                                }
+                                None => break,
+                            }
+                        }
+                    }
+                }
+                let expect: Vec<(u32, Ident)> = self.live_model().into_iter().filter(|(i, _)| bs.contains(*i)).take(limit).collect();
+                ensure!(tag, "drain-items", got == expect, "{:?}: filtered drain (lend_join={}) yielded {:?}, expected {:?}", kind, lend, got, expect);
+                for (i, _) in &got {
+                    self.model.remove(i);
+                    ex.rem(*i);
+                    self.facts.removed_any = true;
+                    if kind.tracked() {
+                        self.facts.drain_tracked = true;
+                    }
+                }
+            }
+            SOp::RestrictProbe(sel_item, sel_other, p) => {
+                let members = self.model.len();
+                if members == 0 {
+                    return Ok(ex);
+                }
+                let n = (*sel_item as usize * members) >> 16;
+                let ko = self.pick(*sel_other);
+                let other = self.cands[ko];
+                let m = if self.alive[ko] { self.model.get(&other.id()).cloned() } else { None };
+                let shared = {
+                    let st = self.w().read_storage::<C>();
+                    let r = st.restrict();
+                    let x = (&r).join().nth(n).map(|item| item.get_other(other).map(|c| c.ident()));
+                    x
+                };
+                let (ex_r, ex_m) = {
+                    let mut st = self.w().write_storage::<C>();
+                    let mut r = st.restrict_mut();
+                    let mut j = (&mut r).lend_join();
+                    let mut k = 0;
+                    let mut out = (None, None);
+                    while let Some(mut item) = j.next() {
+                        if k == n {
+                            let a = item.get_other(other).map(|c| c.ident());
+                            let b = item.get_other_mut(other).map(|mut acc| {
+                                let id = acc.ident();
+                                acc.access_mut().set_payload(*p);
+                                id
+                            });
+                            out = (Some(a), Some(b));
+                            break;
+                        }
+                        k += 1;
+                    }
+                    out
+                };
+                let ptag = if self.alive[ko] { "C13" } else { "C03" };
+                ensure!(ptag, "restrict-get_other", shared == Some(m) && ex_r == Some(m) && ex_m == Some(m),
+                    "{:?}: get_other({:?}) through item #{} of restrict() / restrict_mut() = {:?} / {:?} / get_other_mut {:?}, the storage's own rules give {:?}", kind, other, n, shared, ex_r, ex_m, m);
+                if m.is_some() {
+                    ex.mod_required.insert(other.id());
+                    self.set_payload_model(other.id(), *p);
+                }
+            }
+            SOp::CreateAtomic => {
+                let e = self.w().entities().create();
+                ensure!("C01", "index-shared", self.is_alive_at(e.id()).is_none(), "Entities::create returned {:?} whose index is occupied", e);
+                if self.cands.len() < 200 {
+                    self.cands.push(e);
+                    self.alive.push(true);
+                } else {
+                    // keep the model in step: an entity the model does not know would break the entity scans
+                    let _ = self.world.as_mut().unwrap().delete_entity(e);
                 }
             }
             SOp::Clear => {
@@ -1055,7 +1269,8 @@ impl<C: Caps> Seq<C> {
                     return Ok(ex);
                 }
                 let mut seen: Vec<Ident> = vec![];
-                let mut writes: Vec<Ident> = vec![];
+                // positions (in visit order) of the items fetched mutably
+                let mut writes: Vec<usize> = vec![];
                 if *lending {
                     let mut st = self.w().write_storage::<C>();
                     let mut r = st.restrict_mut();
@@ -1066,7 +1281,7 @@ impl<C: Caps> Seq<C> {
                         seen.push(id);
                         if pattern[n % pattern.len()] {
                             item.get_mut().access_mut().set_payload(*p);
-                            writes.push(id);
+                            writes.push(n);
                         }
                         n += 1;
                     }
@@ -1076,9 +1291,11 @@ impl<C: Caps> Seq<C> {
                     let ok = C::restrict_join_shared(&mut st, &mut |id| {
                         seen.push(id);
                         let wr = pattern[n % pattern.len()];
+                        if wr {
+                            writes.push(n);
+                        }
                         n += 1;
                         if wr {
-                            writes.push(id);
                             Some(*p)
                         } else {
                             None
@@ -1092,21 +1309,13 @@ impl<C: Caps> Seq<C> {
                 }
                 let expect: Vec<Ident> = self.model.values().cloned().collect();
                 ensure!("C13", "restrict-visit", seen == expect, "{:?}: restricted join sees {:?}, the storage holds {:?}", kind, seen, expect);
-                let widx: Vec<u32> = self
-                    .model
-                    .iter()
-                    .filter(|(_, v)| writes.contains(v))
-                    .map(|(k, _)| *k)
-                    .collect();
-                if kind.zst() {
-                    // idents are not distinguishing for the zero-sized kind; events only
-                    let n = writes.len();
-                    let _ = n;
-                }
+                // the join visits the members in index order, so position k is the k-th key
+                let keys: Vec<u32> = self.model.keys().cloned().collect();
                 if !writes.is_empty() && writes.len() < seen.len() {
                     self.facts.partial_mutable_access = true;
                 }
-                for i in widx {
+                for k in writes {
+                    let i = keys[k];
                     ex.mod_required.insert(i);
                     self.set_payload_model(i, *p);
                 }
@@ -1389,7 +1598,7 @@ impl<C: Caps> Seq<C> {
             let mut out = vec![];
             for c in (&st).join() {
                 if let Err(m) = c.check() {
-                    return Err(vio("C19", "stale-read-after-panic", format!("{:?}: join after the caught panic exposes: {}", self.kind, m)));
+                    return Err(vio(if self.tag == "C08" { "C08" } else { "C19" }, "stale-read-after-panic", format!("{:?}: join exposes: {}", self.kind, m)));
                 }
                 out.push(c.ident());
             }
@@ -1535,7 +1744,7 @@ pub fn run_case<C: Caps>(case: &SeqCase, mode: &Mode) -> Result<SeqFacts, Violat
                 }
             }
         } else {
-            let restricted = matches!(op, SOp::RestrictMut(..));
+            let restricted = matches!(op, SOp::RestrictMut(..) | SOp::RestrictProbe(..));
             let retag = |mut v: Violation| {
                 // a restricted join that disturbs other components or events is C13's business
                 if restricted && (v.prop == mode.diff_tag || v.prop == "C12") {
@@ -1543,9 +1752,26 @@ pub fn run_case<C: Caps>(case: &SeqCase, mode: &Mode) -> Result<SeqFacts, Violat
                 }
                 v
             };
-            let ex = s.apply(op).map_err(retag)?;
-            s.check_events(op, &ex).map_err(retag)?;
-            s.scan().map_err(retag)?;
+            let step = (|| -> Verdict {
+                let ex = s.apply(op).map_err(retag)?;
+                s.check_events(op, &ex).map_err(retag)?;
+                s.scan().map_err(retag)
+            })();
+            match step {
+                Ok(()) => {}
+                Err(v) if ((mode.ledger_only && v.prop != "C08") || (mode.events_only && v.prop != "C12" && v.prop != "C13")) && s.world.is_some() => {
+                    s.facts.diverged_from_model += 1;
+                    s.expect_destroyed.clear();
+                    let tag = s.tag;
+                    s.tag = if mode.ledger_only { "C08" } else { "C12" };
+                    let r = s.resync();
+                    s.tag = tag;
+                    if r.is_err() {
+                        return Err(v);
+                    }
+                }
+                Err(v) => return Err(v),
+            }
         }
         if let Some(log) = with_ledger(|l| l.drop_log.take()) {
             s.facts.destroyed_in_last_op = log;
@@ -1586,7 +1812,7 @@ pub fn run_case_dyn(case: &SeqCase, mode: &Mode) -> Result<SeqFacts, Violation> 
 pub fn pool_strategy() -> impl Strategy<Value = Pool> {
     prop_oneof![
         10 => (1u8..40).prop_map(Pool::Dense),
-        6 => (64u16..3000, proptest::collection::vec(any::<u16>(), 1..16)).prop_map(|(total, picks)| Pool::Sparse { total, picks }),
+        6 => (64u16..6000, proptest::collection::vec(any::<u16>(), 1..16)).prop_map(|(total, picks)| Pool::Sparse { total, picks }),
         1 => proptest::collection::vec(0u8..22, 2..12).prop_map(|picks| Pool::Layered { picks }),
     ]
 }
@@ -1626,6 +1852,8 @@ pub fn sop_strategy(p: SeqProfile) -> BoxedStrategy<SOp> {
     ];
     let joins = prop_oneof![
         2 => proptest::option::of(0u8..4).prop_map(SOp::Drain),
+        2 => (proptest::option::of(0u8..4), any::<bool>(), pat()).prop_map(|(take, lend, filter)| SOp::DrainFiltered { take, lend, filter }),
+        2 => (any::<u16>(), any::<u16>(), 1u32..1000).prop_map(|(a, b, p)| SOp::RestrictProbe(a, b, p)),
         1 => Just(SOp::JoinRead),
         2 => (pat(), 1u32..1000).prop_map(|(v, p)| SOp::JoinMut(v, p)),
         2 => (pat(), 1u32..1000, proptest::option::of(0u8..4)).prop_map(|(v, p, t)| SOp::LendJoinMut(v, p, t)),
@@ -1638,6 +1866,7 @@ pub fn sop_strategy(p: SeqProfile) -> BoxedStrategy<SOp> {
         4 => (any::<u16>(), how).prop_map(|(s, h)| SOp::DeleteEntity(s, h)),
         1 => Just(SOp::DeleteAll),
         3 => Just(SOp::CreateEntity),
+        2 => Just(SOp::CreateAtomic),
         2 => (any::<u16>(), 1u32..1000).prop_map(|(s, p)| SOp::LazyInsertMaintain(s, p)),
     ];
     prop_oneof![
@@ -1669,8 +1898,10 @@ pub fn restrict_case_strategy(max_ops: usize) -> impl Strategy<Value = SeqCase> 
         2 => any::<u16>().prop_map(SOp::Remove),
         1 => (any::<u16>(), how).prop_map(|(s, h)| SOp::DeleteEntity(s, h)),
         1 => Just(SOp::CreateEntity),
+        1 => Just(SOp::CreateAtomic),
         1 => any::<bool>().prop_map(SOp::SetEmission),
         8 => (pat(), 1u32..1000, any::<bool>()).prop_map(|(v, p, l)| SOp::RestrictMut(v, p, l)),
+        6 => (any::<u16>(), any::<u16>(), 1u32..1000).prop_map(|(a, b, p)| SOp::RestrictProbe(a, b, p)),
     ];
     (proptest::sample::select(all_kinds()), pool_strategy(), proptest::collection::vec(op, 0..=max_ops))
         .prop_map(|(kind, pool, ops)| SeqCase { kind, pool, ops })
